@@ -195,8 +195,35 @@ class Gen:
         e.w(')')
         return out
 
+    def chain(self, depth):
+        """fluent chain: head (new X(..) | this.m(..) | m(..)) followed by 1..3 links .m(..), names may repeat"""
+        e, rng = self.e, self.rng
+        s = self.begin()
+        def unq(a):
+            return a[1:-1] if len(a) >= 2 and a[0] == '"' and a[-1] == '"' else a
+        h = rng.random()
+        if h < 0.4:
+            self.new(depth + 1)
+        else:
+            name = rng.choice(METHODS)
+            if h < 0.7:
+                e.w('this'); e.w('.')
+            e.w(name); e.tight()
+            args = self.args(depth + 1)
+            self.record('call', s, name=name, args=[unq(a) for a in args], rawargs=args, text=self.src_between(s[0], e.n))
+        link = rng.choice(METHODS)
+        for i in range(rng.randint(1, 3)):
+            if rng.random() < 0.4:
+                link = rng.choice(METHODS)
+            e.tight(); e.w('.'); e.tight(); e.w(link); e.tight()
+            args = self.args(depth + 1)
+            self.record('call', s, name=link, args=[unq(a) for a in args], rawargs=args, text=self.src_between(s[0], e.n))
+        return self.src_between(s[0], e.n), 99
+
     def call(self, depth):
         e, rng = self.e, self.rng
+        if depth < 3 and rng.random() < 0.15:
+            return self.chain(depth)
         s = self.begin()
         r = rng.random()
         name = rng.choice(METHODS)
